@@ -295,8 +295,11 @@ pub fn independent_items(re: &Regex, re_nog: &Regex, text: &str) -> Vec<Item> {
 /// trusted this way; the iterator's own continuing searches are not. Fault-free, patterns without
 /// `\\G` only (`\\G` is about the search position itself).
 pub fn shifted_check(re: &Regex, pattern: &str, text: &str, calls: &[SearchCall], st: &mut Stats) -> Option<Found> {
-    if pattern.contains("\\G") || !re.verif_is_fancy() {
+    if pattern.contains("\\G") {
         return None;
+    }
+    if !re.verif_is_fancy() {
+        return shifted_check_delegated(re, pattern, text, calls, st);
     }
     let n_cap = 2 * re.captures_len();
     let Some(own) = grab_program(re).and_then(|p| pattern_part(&p, None, n_cap)) else { return None };
@@ -333,6 +336,65 @@ pub fn shifted_check(re: &Regex, pattern: &str, text: &str, calls: &[SearchCall]
                     detail: format!(
                         "find_from_pos({:?}, {}) returned {:?} ; the same search expressed from position 0 (/{}/, same VM code for the pattern's part) returns {:?}",
                         text, pos, g, q, w
+                    ),
+                });
+            }
+        }
+    }
+    None
+}
+
+/// The same idea for a pattern that is handed to regex-automata as a whole (no VM program to
+/// compare). A continuing search from byte offset `pos` must report the match of the first
+/// character position i >= k (k = characters before `pos`) at which the pattern matches, and that
+/// single attempt is expressed as a search from 0: `\\A(?s:.{i})(P)`, group 1. The probe regexes must
+/// themselves be delegated as a whole, so both sides are evaluated by the same engine.
+fn shifted_check_delegated(re: &Regex, pattern: &str, text: &str, calls: &[SearchCall], st: &mut Stats) -> Option<Found> {
+    let total = text.chars().count();
+    let mut seen: Vec<usize> = Vec::new();
+    budget::install();
+    'calls: for c in calls {
+        let pos = c.pos;
+        if pos == 0 || pos > text.len() || !text.is_char_boundary(pos) || seen.contains(&pos) {
+            continue;
+        }
+        seen.push(pos);
+        let k = text[..pos].chars().count();
+        let mut want: Option<(usize, usize)> = None;
+        let mut probe = String::new();
+        for i in k..=total {
+            probe = format!("\\A(?s:.{{{}}})({})", i, pattern);
+            let Some(rq) = compile(&probe) else {
+                st.shifted_not_comparable += 1;
+                continue 'calls;
+            };
+            if rq.verif_is_fancy() {
+                st.shifted_not_comparable += 1;
+                continue 'calls;
+            }
+            budget::arm(budget::DEFAULT_INSNS, u64::MAX);
+            let r = guarded(|| rq.captures(text).map(|c| c.and_then(|c| c.get(1).map(|m| (m.start(), m.end())))));
+            budget::disarm();
+            match r {
+                Outcome::Ok(Some(span)) => {
+                    want = Some(span);
+                    break;
+                }
+                Outcome::Ok(None) => {}
+                _ => continue 'calls,
+            }
+        }
+        budget::arm(budget::DEFAULT_INSNS, u64::MAX);
+        let got = guarded(|| re.find_from_pos(text, pos).map(|m| m.map(|m| (m.start(), m.end()))));
+        budget::disarm();
+        st.shifted_searches += 1;
+        if let Outcome::Ok(g) = &got {
+            if *g != want {
+                return Some(Found {
+                    class: "search-depends-on-start-position".into(),
+                    detail: format!(
+                        "find_from_pos({:?}, {}) returned {:?} ; trying each character position from {} on as a search from position 0 (last probe /{}/, group 1) gives {:?}",
+                        text, pos, g, k, probe, want
                     ),
                 });
             }
